@@ -98,19 +98,39 @@ Theorem C03_gated :
 Proof. intros hmac. exact (gated hmac MaxFailures PermanentBanAt). Qed.
 Print Assumptions C03_gated.
 
-(* restart of the server process (ERestart is an event of every history above): the blacklist gate — exact-IP and CIDR
-   entries, permanent or unexpired — and the client table survive, every connection and registry entry is dropped
-   (so nobody is authenticated after it, by C03_auth_step_justified), and a short-lived entry for a' that lapsed before
-   the restart removes only the exact-IP entry of a'.  C03_gated applies unchanged to the state after the restart. *)
-Theorem C03_restart_keeps_blacklist :
-  forall hmac v s lapsed a,
+(* restart of the server process (ERestart is an event of every history above): it is invisible for the IP lists — the
+   blacklist, the whitelist and hence the gate decision for every address are the same before and after, whatever
+   sequence of list edits came before — while every connection and registry entry is dropped (so nobody is authenticated
+   after it, by C03_auth_step_justified) and the client table is kept.  With a short-lived blacklist entry for a' that
+   lapsed just before the restart only the exact-IP blacklist entry of a' is gone.  C03_gated applies unchanged afterwards. *)
+Theorem C03_restart_keeps_lists :
+  forall hmac v s lapsed,
   let s' := fst (step hmac MaxFailures PermanentBanAt v s (ERestart lapsed)) in
-  (lapsed = None -> blocked s' a = blocked s a) /\
-  (black s (k_cidr a) = true -> blocked s' a = true) /\
-  (forall a', lapsed = Some a' -> a <> a' -> blocked s' a = blocked s a) /\
+  (lapsed = None -> black s' = black s /\ forall a, blocked s' a = blocked s a) /\
+  white s' = white s /\
+  (forall a a', lapsed = Some a' -> a <> a' -> blocked s' a = blocked s a) /\
+  (forall a a', lapsed = Some a' -> black s (k_cidr a) = true -> blocked s' a = blocked s a) /\
   (forall k, conns s' k = None) /\ (forall x, index s' x = None) /\ clients s' = clients s.
-Proof. intros hmac. exact (restart_keeps_blacklist hmac MaxFailures PermanentBanAt). Qed.
-Print Assumptions C03_restart_keeps_blacklist.
+Proof. intros hmac. exact (restart_keeps_lists hmac MaxFailures PermanentBanAt). Qed.
+Print Assumptions C03_restart_keeps_lists.
+
+Theorem C03_restart_invisible_for_lists :
+  forall hmac v s es,
+  let s1 := run hmac MaxFailures PermanentBanAt v s es in
+  let s2 := run hmac MaxFailures PermanentBanAt v s (es ++ [ERestart None]) in
+  black s2 = black s1 /\ white s2 = white s1 /\ forall a, blocked s2 a = blocked s1 a.
+Proof. intros hmac. exact (restart_invisible_for_lists hmac MaxFailures PermanentBanAt). Qed.
+Print Assumptions C03_restart_invisible_for_lists.
+
+(* once a ban is in place it stays in place — through every handshake outcome of every connection (including the success
+   of a handshake of the same address: RecordSuccess clears failures, never a ban), failures, lapses of short bans and the
+   asynchronous removal — until UnbanIP on that address or a restart; with C03_gated: every handshake from it is refused *)
+Theorem C03_ban_in_force_persists :
+  forall hmac v es s a,
+  banned s a = true -> forallb (fun e => negb (lifts_ban a e)) es = true ->
+  banned (run hmac MaxFailures PermanentBanAt v s es) a = true.
+Proof. intros hmac. exact (ban_in_force_persists hmac MaxFailures PermanentBanAt). Qed.
+Print Assumptions C03_ban_in_force_persists.
 
 (* (5) the registry maps client x to connection k only if k is authenticated as x — after every history *)
 Theorem C03_registry_respects_auth :
